@@ -12,6 +12,7 @@ RULE = ("fault enumeration on the real medium: for each of several scripts (crea
         "close returned success, the bytes on the medium are reopened with the fault disarmed and must show exactly the "
         "reference state; no schedule may panic.  non-trivial = the fault was actually hit; distinct = distinct (script, k, "
         "persistence, mode)")
+RULE = RULE + ('  Also sessions that OPEN an existing signed file (both signature entries added with the cfb crate) and call remove_digital_signature, alone and followed by table and summary changes, under the same fault enumeration.')
 ASSUMPTIONS = ["the fault model is a failing Write::write call on the Read+Write+Seek medium (transient or persistent); short writes, "
                "failing reads/seeks during the write path and torn sectors are not enumerated",
                "cfb's own sector/FAT/directory writes are below the stream-level model of Io.v; they are exercised here, not proved"]
@@ -44,8 +45,29 @@ def scripts(rng):
     only_stream = ["(write_stream %s (%s))" % (X.enc_str("Blob"), " ".join(str(i % 7) for i in range(100)))]
     seek_stream = ["(x_write_seek %s (%s))" % (X.enc_str("Payload"), " ".join(str(i % 11) for i in range(300))),
                    "(x_write_seek %s (%s))" % (X.enc_str("Big"), " ".join(str(i % 13) for i in range(9000)))]
+    # sessions on an EXISTING file (saved, signed with the cfb crate only, opened again): removing the signature -- two
+    # container entries, one call -- then changing a table
+    unsign = ["(remove_sig)"]
+    unsign_dml = ["(remove_sig)", "(insert %s (%s))" % (T, row(9, "after", 1)), "(sum_set author %s)" % X.enc_str("Zed")]
     return {"dml": s1, "stream-flush": s2, "drop": s3, "many-inserts": many, "create-only": [], "stream-only": only_stream,
-            "stream-seek": seek_stream}
+            "stream-seek": seek_stream, "signed-remove": unsign, "signed-remove-dml": unsign_dml}
+
+
+def prefix(name):
+    """commands that build the file a session starts from (None: the script starts from Package::create)"""
+    if not name.startswith("signed"):
+        return None
+    T = X.enc_str("T")
+    cols = "(" + " ".join(G.enc_col(c) for c in [mk("K", "i16", pk=True), mk("V", ("str", 0), null=True), mk("N", "i32", null=True)]) + ")"
+    return ["(create 0)", "(create_table %s %s)" % (T, cols), "(insert %s ((%s %s %s)))" % (T, X.enc_value(1), X.enc_value("alpha"), X.enc_value(10)),
+            "(write_stream %s (1 2 3))" % X.enc_str("Bin"), "(add_signature)"]
+
+
+def run_cmds(name, k, persistent, mode, cmds):
+    pre = prefix(name)
+    if pre is None:
+        return [fr(k, persistent, mode, cmds)]
+    return pre + [fr(k, persistent, mode, cmds).replace("(x_fault_run", "(x_fault_on", 1)]
 
 
 def fr(k, persistent, mode, cmds):
@@ -57,7 +79,7 @@ def gen_cases(rng, tier, info):
     cases = []
     for name, cmds in scripts(rng).items():
         for mode in ("flush", "into_inner"):
-            cases.append(Case("ref-%s-%s" % (name, mode), [fr(-1, False, mode, cmds)], ("ref", name, mode)))
+            cases.append(Case("ref-%s-%s" % (name, mode), run_cmds(name, -1, False, mode, cmds), ("ref", name, mode)))
     info.update({"scripts": len(scripts(rng))})
     return cases
 
@@ -81,7 +103,7 @@ def oracle(ctx):
     extra = []
     refs = {}
     for c, outs in zip(ctx.cases, ctx.impl_out):
-        o = outs[0]
+        o = outs[-1]
         if o in ("panic", "abort", "timeout"):
             bad.append({"kind": "panic", "what": "fault-free run: %s" % o, "cmds": c.cmds, "impl": o})
             continue
@@ -97,11 +119,11 @@ def oracle(ctx):
         for k in ks:
             for persistent in (False, True):
                 extra.append(ctx.Case("f-%s-%s-%d-%d" % (c.tags[1], c.tags[2], k, persistent),
-                                      [fr(k, persistent, c.tags[2], rng_scripts[c.tags[1]])], (c.tags[1], c.tags[2], k, persistent)))
+                                      run_cmds(c.tags[1], k, persistent, c.tags[2], rng_scripts[c.tags[1]]), (c.tags[1], c.tags[2], k, persistent)))
     outs2 = ctx.run_impl(extra)
     hit = silent = 0
     for c, o in zip(extra, outs2):
-        o = o[0]
+        o = o[-1]
         name, mode, k, persistent = c.tags
         if o in ("panic", "abort", "timeout"):
             bad.append({"kind": "panic", "what": "%s under a write fault at call %d" % (o, k), "cmds": c.cmds, "impl": o})
